@@ -66,6 +66,8 @@ extern const BindExtra bind_extras[];
 extern const unsigned bind_nextras;
 extern const char *const bind_new_uncallable[];  /* new API that takes pointers: reported, not called */
 
+/* set by an accessor thunk when the accessor evaluated an argument expression more than once (a macro) */
+extern volatile unsigned bind_multi_eval;
 extern const BindFormat *const bind_formats[];
 extern const unsigned bind_nformats;
 
